@@ -115,6 +115,7 @@ func shApplyEdit(tx *bt.Tx, cur *gen.Shape, st *shStep) bool {
 }
 
 func shJudgeSeq(c *mon.Ctx, in *shSeq, legacy bool) {
+	ownerEditsDecodedEmpties(c)
 	P := "C02"
 	if legacy {
 		P = "C03"
